@@ -319,3 +319,60 @@ lemma('L_SumS_zero', _PB, lambda ns, sl, A, i: Implies(_zero_succ(ns, sl, A, i),
 lemma('L_BR_zero', [('c', INT), ('ns', NS), ('sl', SLT), ('A', AR)],
       lambda c, ns, sl, A: Implies(And(_zero_succ(ns, sl, A, L_len(ns, NS)), L_len(ns, NS) >= 1, 0 <= c, c <= 2), BR(c, ns, sl, A) == 0),
       hints=lambda c, ns, sl, A: [LEMMAS[n](ns, sl, A, L_len(ns, NS)) for n in ('L_MaxS_zero', 'L_MinS_zero', 'L_SumS_zero')])
+
+
+# ---------------------------------------------------------------------------------------------------------------------
+# C13 (transition order): the value-level spec functions do not depend on the order in which a state's transitions are
+# listed, and the list-level ones have an order-free membership. The contracts prove `code(list) == F(list)` for every list,
+# so `code(permuted list)` vs `code(list)` reduces to these lemmas about F. Invariance is proved for the exchange of two
+# NEIGHBOURS (every reordering is a product of such exchanges); membership characterisations hold for any reordering.
+from z3 import Store   # noqa: E402
+
+
+def Swp(ns, j):
+    """ns with the transitions at positions j and j+1 exchanged"""
+    a = L_arr(ns, NS)
+    return L_mk(NS, Store(Store(a, j, a[j + 1]), j + 1, a[j]), L_len(ns, NS))
+
+
+def _pre(A, B, i):
+    k = Int('k!pre')
+    return ForAll([k], Implies(And(0 <= k, k < i), L_arr(A, NS)[k] == L_arr(B, NS)[k]))
+
+
+_VAL_FUNS = {'MaxS': MaxS, 'MinS': MinS, 'SumS': SumS, 'MaxR': MaxR, 'MinR': MinR}
+PERM_LEMMAS = []
+for _n, _F in _VAL_FUNS.items():
+    # only the first i transitions matter
+    lemma(f'L_{_n}_pre', [('A', NS), ('B', NS), ('sl', SLT), ('X', RPT), ('i', INT)],
+          (lambda F: lambda A, B, sl, X, i: Implies(_pre(A, B, i), F(A, sl, X, i) == F(B, sl, X, i)))(_F), ind='i')
+    # exchanging two neighbours among the first i transitions changes nothing
+    lemma(f'L_{_n}_swap', [('ns', NS), ('sl', SLT), ('X', RPT), ('j', INT), ('i', INT)],
+          (lambda F: lambda ns, sl, X, j, i: Implies(And(0 <= j, j + 1 < i), F(Swp(ns, j), sl, X, i) == F(ns, sl, X, i)))(_F), ind='i',
+          hints=(lambda n: lambda ns, sl, X, j, i: [LEMMAS[f'L_{n}_pre'](Swp(ns, j), ns, sl, X, j)])(_n))
+    PERM_LEMMAS += [f'L_{_n}_pre', f'L_{_n}_swap']
+lemma('L_SumP_swap', [('ns', NS), ('j', INT), ('i', INT)], lambda ns, j, i: Implies(And(0 <= j, j + 1 < i), SumP(Swp(ns, j), i) == SumP(ns, i)), ind='i',
+      hints=lambda ns, j, i: [LEMMAS['L_SumP_ext'](Swp(ns, j), ns, j)])
+PERM_LEMMAS.append('L_SumP_swap')
+
+
+def _in_labels(L, lab):
+    k = Int('k!lab')
+    return Exists([k], And(0 <= k, k < L_len(L, LSTR), L_arr(L, LSTR)[k] == lab))
+
+
+def _in_trans(L, t):
+    k = Int('k!tr')
+    return Exists([k], And(0 <= k, k < L_len(L, NS), L_arr(L, NS)[k] == t))
+
+
+# a label is in the arg-list iff SOME transition among the first i carries it and has the rounded value m (no position involved)
+lemma('L_ArgEqR_mem', _P + [('m', REAL), ('lab', STR)],
+      lambda ns, sl, X, i, m, lab: And(L_len(ArgEqR(ns, sl, X, i, m), LSTR) >= 0,
+                                        _in_labels(ArgEqR(ns, sl, X, i, m), lab) == Exists([Int('k!am')], And(0 <= Int('k!am'), Int('k!am') < i, t_lab(ns_at(ns, Int('k!am'))) == lab,
+                                                                                                       round6(val(ns, sl, X, Int('k!am'))) == m))), ind='i')
+# a transition is kept by the conditioning iff it is among the first i and leads to a live state (no position involved)
+lemma('L_FA_mem', _P + [('t', TRANS)],
+      lambda ns, sl, X, i, t: And(L_len(FilterAlive(ns, sl, X, i), NS) >= 0,
+                                   _in_trans(FilterAlive(ns, sl, X, i), t) == Exists([Int('k!fm')], And(0 <= Int('k!fm'), Int('k!fm') < i, ns_at(ns, Int('k!fm')) == t, alive(ns, sl, X, Int('k!fm'))))), ind='i')
+PERM_LEMMAS += ['L_ArgEqR_mem', 'L_FA_mem']
